@@ -69,8 +69,8 @@ func (n *node) hashOf(num uint64) []byte {
 	return h[:]
 }
 
-func hx(b []byte) string     { return fmt.Sprintf("0x%x", b) }
-func hn(n uint64) string     { return "0x" + strconv.FormatUint(n, 16) }
+func hx(b []byte) string { return fmt.Sprintf("0x%x", b) }
+func hn(n uint64) string { return "0x" + strconv.FormatUint(n, 16) }
 func addr(seed uint64) []byte {
 	h := sha256.Sum256([]byte(fmt.Sprint("addr", seed)))
 	return h[:20]
@@ -148,9 +148,8 @@ func (n *node) txs(num uint64) []map[string]any {
 	var res []map[string]any
 	bh := n.hashOf(num)
 	for i := uint64(0); i < txsPerBlock; i++ {
-		res = append(res, map[string]any{
+		tx := map[string]any{
 			"transactionIndex": hn(i),
-			"hash":             hx(txHash(bh, i)),
 			"type":             "0x2",
 			"nonce":            hn(num*10 + i),
 			"from":             hx(addr(i)),
@@ -159,7 +158,13 @@ func (n *node) txs(num uint64) []map[string]any {
 			"input":            hx([]byte{1, 2, 3, byte(i)}),
 			"gas":              hn(21000),
 			"gasPrice":         hn(7),
-		})
+		}
+		// on odd blocks the node leaves the transaction hash out, so that
+		// eth.Tx.Hash has to compute and memoise it (under tx.cacheMut)
+		if num%2 == 0 {
+			tx["hash"] = hx(txHash(bh, i))
+		}
+		res = append(res, tx)
 	}
 	return res
 }
